@@ -347,7 +347,16 @@ def configs(
         if has_board and cdesc['deck'] != 'KUHN_POKER':
             nboards = draw(st.sampled_from(boards))
         size = DECK_SIZE[cdesc['deck']]
-        if stud:
+        if cdesc['family'] == 'mixed':
+            # every street but the last is covered for all players, and the
+            # last one can at least be dealt as shared cards (the fall-back
+            # may occur, the deck never runs dry: DESIGN 3-1)
+            k = cdesc['board']
+            nfirst = cdesc['hole'] - k
+            nmax = (52 - 2 * nboards - 1 - cdesc['burns']
+                    - (k - 1) * nboards) // (nfirst + k - 1)
+            nmax = max(2, min(cdesc['max_n'], nmax))
+        elif stud:
             nmax = cdesc['max_n']
         else:
             nmax = (size - nboards * cdesc['board'] - cdesc['burns']) \
@@ -399,6 +408,10 @@ def configs(
                                          (1, 10), (1, 4), (1, 1)]))
         cap = draw(st.sampled_from([None, None, 1, 3, 10]))
         rk = [num, den, cap, draw(st.booleans())]
+        if draw(st.integers(0, 3)) == 0:
+            # a flat-drop callback instead of the stock percentage rake
+            rk = ['flat', draw(st.sampled_from([1, 2, 3, 5])),
+                  draw(st.booleans())]
     dm = 'default'
     if divmods and draw(st.integers(0, 5)) == 0:
         dm = 'custom'
